@@ -163,7 +163,16 @@ impl FsOcflStore {
 
         while let Some(component) = components.next() {
             match component {
-                path::Component::Normal(part) => current.push(part),
+                path::Component::Normal(part) => {
+                    if current == self.storage_root && part == EXTENSIONS_DIR {
+                        // Reserved by OCFL for storage root extensions; rocfl's staging lives there
+                        return Err(RocflError::IllegalState(format!(
+                            "Cannot {} object {} because its object root, {}, is within the storage root's extensions directory",
+                            action, object_id, object_root
+                        )));
+                    }
+                    current.push(part)
+                }
                 path::Component::CurDir => continue,
                 _ => {
                     return Err(RocflError::IllegalState(format!(
